@@ -35,10 +35,15 @@ def _code():
     return template.__code__
 
 
+BIG = 1203      # one batch with more rows than any plausible internal chunk size
+
+
 def make_traces(batch_rows, nbad, salt=""):
     """Real CallTraces for row ids; unserialisable ones (Tuple[int, ...] argument) interleaved."""
     from monkeytype.tracing import CallTrace
     out = []
+    if batch_rows == "BIG":
+        batch_rows = [("mbig", "fn%04d" % j) for j in range(BIG)]
     for j, rid in enumerate(batch_rows):
         mod, qn = ROWS[rid] if rid in ROWS else rid
         f = types.FunctionType(_code(), {}, qn.split(".")[-1])
@@ -87,6 +92,8 @@ def worker_main(dbpath, pipe, repo):
             return 0
         pipe.send(("paused",))
         cmd = pipe.recv()
+        if isinstance(cmd, tuple):       # Conn.call sends tuples
+            cmd = cmd[0]
         if cmd == "tick":
             return 0
         if cmd == "run":
@@ -244,6 +251,13 @@ def run_behaviour(sc):
         for c, cn in conns.items():
             if cn.proc.is_alive() and cn.paused:
                 finish_add(c, cn.call("run"))
+        if sc.get("big"):      # one very large batch through a live connection: all of it or nothing
+            c = next((c for c, cn in conns.items() if cn.proc.is_alive()), None)
+            if c is not None:
+                events.append({"ev": "AddStart", "c": c, "b": "bbig", "rows": expected_rows("BIG"), "nbad": 0})
+                conns[c].paused = "bbig"
+                finish_add(c, conns[c].call("add", "BIG", 0, False, timeout=60))
+                events.append(check_event(dbpath))
         for cn in conns.values():
             cn.close()
         events.append(check_event(dbpath))
@@ -354,7 +368,8 @@ def main(pid, tier, seed, replay=None):
         if q and len(beh1) > 1500:
             beh1 = rng.sample(beh1, 1500)
             plan[0]["replayed_sample"] = 1500
-        scs = [{"tid": i + 1, "hist": h} for i, h in enumerate(beh1 + beh2)]
+        scs = [{"tid": i + 1, "hist": h, "big": i % 40 == 7} for i, h in enumerate(beh1 + beh2)]
+        plan.append({"family": "of these, schedules ending with one batch of %d distinct rows" % BIG, "behaviours": sum(1 for x in scs if x["big"])})
     records = run_behaviours(scs)
     by_tid = {r["tid"]: r for r in records}
     sc_by_tid = {s["tid"]: s for s in scs}
@@ -362,7 +377,7 @@ def main(pid, tier, seed, replay=None):
     for v in verdicts:
         rec = by_tid[v["tid"]]
         for clause in v.get("viol", []):
-            run.violation(signature(rec, clause), {"hist": sc_by_tid[v["tid"]]["hist"]})
+            run.violation(signature(rec, clause), {"hist": sc_by_tid[v["tid"]]["hist"], "big": sc_by_tid[v["tid"]].get("big", False)})
     kinds = lambda r: {e["ev"] for e in r["events"]}  # noqa: E731
     nt = {json.dumps(sc_by_tid[r["tid"]]["hist"], sort_keys=True) for r in records
           if {"AddStart", "Filter"} <= kinds(r) or "Crash" in kinds(r)}
@@ -382,6 +397,9 @@ def main(pid, tier, seed, replay=None):
         "plan": plan,
         "crashes": sum(1 for r in records for e in r["events"] if e["ev"] == "Crash"),
         "aborts_or_busy": sum(1 for r in records for e in r["events"] if e["ev"] == "AddEnd" and not e["ok"]),
+        "interrupted_adds": sum(1 for r in records for e in r["events"] if e["ev"] == "AddEnd" and "interrupt" in e["err"]),
+        "busy_adds": sum(1 for r in records for e in r["events"] if e["ev"] == "AddEnd" and "locked" in e["err"]),
+        "committed_adds": sum(1 for r in records for e in r["events"] if e["ev"] == "AddEnd" and e["ok"]),
         "mc": None if mc is None else {"spec": "MTStoreMC, Dev_Like off: Atomic, FilterExact, ModulesExact, Durable",
                                        "distinct_states": mc.distinct, "states_generated": mc.generated, "wall_s": round(mc.wall, 1)},
         "trace_validation": {"spec": "MTStoreTrace", "tlc_states": states, "wall_s": round(wall, 1)},
